@@ -1,10 +1,10 @@
 SPECIFICATION Spec
 CONSTANTS
-  Scripts <- AllScripts
+  Scripts <- NonZero
   Direct = FALSE
   ForwardHalfClose = TRUE
   JoinBeforeError = FALSE
-  NeedFirstMessage = FALSE
-  FirstSendEOFFatal = FALSE
+  NeedFirstMessage = TRUE
+  FirstSendEOFFatal = TRUE
 INVARIANTS TranscriptEquivalence BackendSawPrefix BackendSawAll NoPumpOutlivesHandler
 PROPERTY Finishes
